@@ -160,6 +160,8 @@ def run_fide(ctx):
                 if not same_spec(spec.dump_fm(cur), back):
                     r.oracle_fail("writer-output", req, f"cycle{cyc}:model-differs", "")
                     break
+            for c_, d_ in fmt.exchange_cycles(FeatureIDEWriter, FeatureIDEReader, sc.path("xml"), cur, back, same_spec):
+                r.oracle_fail("writer-output", req, c_, d_)
     finally:
         sc.close()
 
